@@ -86,6 +86,16 @@ MUTANTS = [
     ("cfl-measure-abs-of-sum", "sopht/simulator/flow/passive_transport_flow_simulators.py", "np.sum(np.fabs(velocity_field), axis=0)", "np.fabs(np.sum(velocity_field, axis=0))", ["C16"]),
     ("penalised-velocity-wrong-component-3d", E3 + "update_vorticity_from_velocity_forcing_3d.py", "            penalised_velocity_field_z=penalised_velocity_field[z_axis_idx],\n            velocity_field_x=velocity_field[x_axis_idx],",
      "            penalised_velocity_field_z=penalised_velocity_field[z_axis_idx],\n            velocity_field_x=velocity_field[y_axis_idx],", ["C12", "C13"]),
+    ("poisson-2d-partial-clear-wrong-column-start", P2 + "UnboundedPoissonSolverPYFFTW2D.py", "        self.set_fixed_val_kernel_2d(field=self.domain_doubled_buffer, fixed_val=0)\n\n        self.elementwise_copy_kernel_2d(",
+     "        self.set_fixed_val_kernel_2d(field=self.domain_doubled_buffer[self.grid_size_y :, :], fixed_val=0)\n        self.set_fixed_val_kernel_2d(field=self.domain_doubled_buffer[: self.grid_size_y, self.grid_size_y :], fixed_val=0)\n\n        self.elementwise_copy_kernel_2d(", ["C03", "C18", "C01"]),
+    ("interp-2d-scalar-row-window-from-x-index", IB + "EulerianLagrangianGridCommunicator2D.py", "            lag_grid_field[i] = np.sum(\n                eul_grid_field[\n                    nearest_eul_grid_index_to_lag_grid[1, i]\n                    - interp_kernel_width\n                    + 1 : nearest_eul_grid_index_to_lag_grid[1, i] + interp_kernel_width + 1,",
+     "            lag_grid_field[i] = np.sum(\n                eul_grid_field[\n                    nearest_eul_grid_index_to_lag_grid[0, i]\n                    - interp_kernel_width\n                    + 1 : nearest_eul_grid_index_to_lag_grid[0, i] + interp_kernel_width + 1,", ["C06", "C07"]),
+    ("rigid-wrapper-swaps-reset-and-threads", "sopht/simulator/immersed_body/rigid_body/rigid_body_flow_interaction.py", "            enable_eul_grid_forcing_reset,\n            num_threads,\n            start_time,\n            **forcing_grid_kwargs,\n        )",
+     "            num_threads,\n            enable_eul_grid_forcing_reset,\n            start_time,\n            **forcing_grid_kwargs,\n        )", ["C10"]),
+    ("zone-width-zero-replaced-by-default", NS, 'self.penalty_zone_width = kwargs.get("penalty_zone_width", 2)', 'self.penalty_zone_width = kwargs.get("penalty_zone_width") or 2', ["C01"]),
+    ("convolution-filter-z-block-uses-y-stencil", E3 + "laplacian_filter_3d.py", "            laplacian_filter_3d_z(filter_flux=filter_flux_buffer, field=field_buffer)\n            elementwise_copy_3d(field=field_buffer, rhs_field=filter_flux_buffer)\n        elementwise_saxpby_3d(",
+     "            laplacian_filter_3d_y(filter_flux=filter_flux_buffer, field=field_buffer)\n            elementwise_copy_3d(field=field_buffer, rhs_field=filter_flux_buffer)\n        elementwise_saxpby_3d(", ["C05", "C13", "C19"]),
+    ("fastdiag-2d-default-bc-spelling", P2 + "FastDiagPoissonSolver2D.py", 'bc_type: Literal["homogenous_neumann_along_xy"] = "homogenous_neumann_along_xy",', 'bc_type: Literal["homogeneous_neumann_along_xy"] = "homogeneous_neumann_along_xy",', ["C11"]),
 ]
 
 # behaviour-preserving edits: every listed check must stay silent
@@ -121,6 +131,10 @@ CONTROLS = [
      "            poisson_matrix_y[-1, -1] = inv_dx2\n            poisson_matrix_y[0, 0] = inv_dx2\n            poisson_matrix_x[-1, -1] = inv_dx2\n            poisson_matrix_x[0, 0] = inv_dx2", ["C11"]),
     ("rigid-body-cross-flipped-with-sign", RIG, "        self.velocity_field[...] = self.rigid_body.velocity_collection + _batch_cross(\n            global_frame_omega * np.ones(self.num_lag_nodes),\n            self.global_frame_relative_position_field,\n        )",
      "        self.velocity_field[...] = self.rigid_body.velocity_collection - _batch_cross(\n            self.global_frame_relative_position_field,\n            global_frame_omega * np.ones(self.num_lag_nodes),\n        )", ["C09"]),
+    ("poisson-2d-clear-padding-only", P2 + "UnboundedPoissonSolverPYFFTW2D.py", "        self.set_fixed_val_kernel_2d(field=self.domain_doubled_buffer, fixed_val=0)\n\n        self.elementwise_copy_kernel_2d(",
+     "        self.set_fixed_val_kernel_2d(field=self.domain_doubled_buffer[self.grid_size_y :, :], fixed_val=0)\n        self.set_fixed_val_kernel_2d(field=self.domain_doubled_buffer[: self.grid_size_y, self.grid_size_x :], fixed_val=0)\n\n        self.elementwise_copy_kernel_2d(", ["C03", "C18", "C01", "C15"]),
+    ("rigid-wrapper-keyword-arguments", "sopht/simulator/immersed_body/rigid_body/rigid_body_flow_interaction.py", "            enable_eul_grid_forcing_reset,\n            num_threads,\n            start_time,\n            **forcing_grid_kwargs,\n        )",
+     "            num_threads=num_threads,\n            enable_eul_grid_forcing_reset=enable_eul_grid_forcing_reset,\n            start_time=start_time,\n            **forcing_grid_kwargs,\n        )", ["C10"]),
 ]
 
 
